@@ -378,7 +378,14 @@ fn collect_validator_entries_inner(
     let mut fields: Vec<_> = errors.errors().iter().collect();
     fields.sort_by(|a, b| a.0.cmp(b.0));
     for (field, kind) in fields {
-        let field_path = path.clone().join(field.as_ref());
+        // `validator` reports a collection validated on its own (a document whose root is a
+        // `Vec<T>`) under the placeholder field `_tmp_validator`; as a field's value it strips
+        // the placeholder itself. It is no part of the path.
+        let field_path = if path.is_empty() && field.as_ref() == "_tmp_validator" {
+            path.clone()
+        } else {
+            path.clone().join(field.as_ref())
+        };
         match kind {
             ValidationErrorsKind::Field(entries) => {
                 for entry in entries {
